@@ -1,7 +1,8 @@
 import Taskpool.Inv.GatherApi
 import Taskpool.Inv.GoodInv
 /-! The counting invariant of the gathers for **every reachable world**: the handles in the loop's ready queue are the
-`R` of `PInv`. -/
+`R` of `PInv`.  A handle leaves the ready queue only by being run (a handle is addressed to an existing pool), so the
+count per slot is tracked exactly. -/
 namespace Taskpool
 
 /-- handles of callback slot `gi` of pool `n` in the ready queue -/
@@ -88,7 +89,7 @@ theorem World.GInv.drain {w : World} (h : w.GInv) : w.drain.GInv := by
     | some p =>
       simp only [hq, Option.map_some, Option.some.injEq] at hp'
       subst hp'
-      exact (h.inv n p hq).drain.mono_R (fun gi => by rw [World.rdy_drain w n p hq gi]; exact Nat.le_refl _)
+      exact (h.inv n p hq).drain.congr_R (fun gi => World.rdy_drain w n p hq gi)
 
 theorem isCb_gchild (gi : Nat × Nat) (g j : Nat) : isCb gi (.gchild g j) = true ↔ gi = (g, j) := by
   obtain ⟨a, b⟩ := gi
@@ -104,17 +105,28 @@ theorem World.rdy_erase_le (w : World) (k : Nat) (n : Nat) (gi : Nat × Nat) :
   | none => rw [List.eraseIdx_of_length_le (by simpa using hx)]; exact Nat.le_refl _
   | some x => have := countP_eraseIdx w.ready k (fun x => x.1 == n && isCb gi x.2) x hx; omega
 
+/-- erasing a handle that is not a handle of slot `gi` of pool `n` leaves the count of that slot alone -/
+theorem World.rdy_erase_eq (w : World) (k : Nat) (n : Nat) (gi : Nat × Nat) (x : Nat × Ref) (hx : w.ready[k]? = some x)
+    (hne : (x.1 == n && isCb gi x.2) = false) :
+    ({ w with ready := w.ready.eraseIdx k } : World).rdy n gi = w.rdy n gi := by
+  simp only [World.rdy]
+  have := countP_eraseIdx w.ready k (fun x => x.1 == n && isCb gi x.2) x hx
+  simp only [hne, Bool.false_eq_true, if_false] at this
+  omega
+
 theorem PInv_init (R : Nat × Nat → Nat) (cap : Cap) (simple : Option SpawnSpec) (hz : ∀ gi, R gi = 0) :
     Pool.PInv R (Pool.init cap simple) := by
   have hW : ∀ gi, Pool.W R (Pool.init cap simple) gi = 0 := by
     intro gi; simp [Pool.W, hz gi, Pool.pot, Pool.init]
-  refine ⟨?_, ?_, ?_, ?_⟩
+  refine ⟨?_, ?_, ?_, ?_, ?_, ?_⟩
   · intro g i hp; rw [hW] at hp; exact absurd hp (Nat.lt_irrefl 0)
   · intro g G hG; simp [Pool.init] at hG
   · intro g G i t hG; simp [Pool.init] at hG
   · intro g G hG; simp [Pool.init] at hG
+  · intro t g i hm; simp [Pool.dcb, Pool.init] at hm
+  · intro m g i hm; simp [Pool.rcb, Pool.init] at hm
 
-theorem World.GInv.step {w : World} (h : w.GInv) (hg : w.All BaseC) (x : WOp) : (w.step x).1.GInv := by
+theorem World.GInv.step {w : World} (h : w.GInv) (hg : w.All BaseC) (hm : w.MCAll) (x : WOp) : (w.step x).1.GInv := by
   cases x with
   | mkpool size simple name =>
     simp only [World.step, World.mkpool]
@@ -163,9 +175,11 @@ theorem World.GInv.step {w : World} (h : w.GInv) (hg : w.All BaseC) (x : WOp) : 
     · exact h
     · rename_i i r hk
       split
-      · refine ⟨fun x hx => h.idx x (List.mem_of_mem_eraseIdx hx), ?_⟩
-        intro n p hp
-        exact (h.inv n p hp).mono_R (fun gi => World.rdy_erase_le w k n gi)
+      · -- a handle is addressed to an existing pool
+        rename_i hnone
+        have := h.idx (i, r) (List.mem_of_getElem? hk)
+        rw [List.getElem?_eq_none_iff] at hnone
+        omega
       · rename_i p hp
         refine ⟨fun x hx => by simp only [List.length_set]; exact h.idx x (List.mem_of_mem_eraseIdx hx), ?_⟩
         intro n p' hp'
@@ -179,13 +193,14 @@ theorem World.GInv.step {w : World} (h : w.GInv) (hg : w.All BaseC) (x : WOp) : 
           have hrv : Pool.RegValid ({ p with orders := orders } : Pool) := fun t ht => Pool.Good.regValid hgood t ht
           cases r with
           | task t =>
-            exact (hp0.frame (Pool.gv_stepTask _ t) (Pool.mono_runRef _ (.task t))).mono_R
-              (fun gi => World.rdy_erase_le w k n gi)
+            exact (hp0.frame (Pool.gv_stepTask _ t) (Pool.mono_runRef _ (.task t))).congr_R
+              (fun gi => World.rdy_erase_eq w k n gi _ hk (by simp [isCb]))
           | spawner m =>
-            exact (hp0.frame (Pool.gv_stepMeta _ m) (Pool.mono_runRef _ (.spawner m))).mono_R
-              (fun gi => World.rdy_erase_le w k n gi)
+            exact (hp0.frame (Pool.gv_stepMeta _ m) (Pool.mono_runRef _ (.spawner m))).congr_R
+              (fun gi => World.rdy_erase_eq w k n gi _ hk (by simp [isCb]))
           | api a =>
-            exact ((Pool.AInv.stepApi ⟨hp0, hof, hrv⟩ a).pinv).mono_R (fun gi => World.rdy_erase_le w k n gi)
+            exact ((Pool.AInv.stepApi ⟨hp0, hof, hrv⟩ (hm n p hp) a).pinv).congr_R
+              (fun gi => World.rdy_erase_eq w k n gi _ hk (by simp [isCb]))
           | gchild g j =>
             have hcnt : ∀ gi, ({ w with ready := w.ready.eraseIdx k } : World).rdy n gi
                 + (if (n == n && isCb gi (.gchild g j)) then 1 else 0) = w.rdy n gi :=
@@ -195,37 +210,44 @@ theorem World.GInv.step {w : World} (h : w.GInv) (hg : w.All BaseC) (x : WOp) : 
               have e : isCb (g, j) (.gchild g j) = true := (isCb_gchild (g, j) g j).mpr rfl
               simp only [beq_self_eq_true, e, Bool.and_self, if_true] at this
               omega
-            refine (hp0.gchild hof g j hpos).mono_R ?_
+            refine (hp0.gchild hof g j hpos).congr_R ?_
             intro gi
             have := hcnt gi
             simp only [beq_self_eq_true, Bool.true_and] at this
-            show ({ w with ready := w.ready.eraseIdx k } : World).rdy n gi ≤ _
+            show ({ w with ready := w.ready.eraseIdx k } : World).rdy n gi = _
             unfold Pool.decAt
             by_cases e : gi = (g, j)
             · have e' : isCb gi (.gchild g j) = true := (isCb_gchild gi g j).mpr e
               simp only [e', if_true] at this
               simp only [e, if_true]; subst e; omega
-            · have e' : ¬ isCb gi (.gchild g j) = true := fun x => e ((isCb_gchild gi g j).mp x)
-              simp only [e', if_false] at this
+            · have e' : isCb gi (.gchild g j) = false := by
+                cases hx : isCb gi (.gchild g j) with
+                | false => rfl
+                | true => exact absurd ((isCb_gchild gi g j).mp hx) e
+              simp only [e', Bool.false_eq_true, if_false] at this
               simp only [e, if_false]; omega
-        · exact (h.inv n p' hold).mono_R (fun gi => World.rdy_erase_le w k n gi)
+        · rename_i hne
+          exact (h.inv n p' hold).congr_R
+            (fun gi => World.rdy_erase_eq w k n gi _ hk (by
+              have : ¬ i = n := fun e => hne e.symm
+              simp [this]))
 
-theorem World.GInv.next {w : World} (h : w.GInv) (hg : w.All BaseC) (x : WOp) : (w.next x).GInv :=
-  (h.step hg x).drain
+theorem World.GInv.next {w : World} (h : w.GInv) (hg : w.All BaseC) (hm : w.MCAll) (x : WOp) : (w.next x).GInv :=
+  (h.step hg hm x).drain
 
 theorem World.GInv.init (base : Nat) : (World.init base).GInv :=
   ⟨fun x hx => by simp [World.init] at hx, fun n p hp => by simp [World.init] at hp⟩
 
 /-- **every reachable world** satisfies the counting invariant of the gathers -/
 theorem World.ginv_run (base : Nat) (h : History) : ((World.init base).run h).GInv := by
-  have key : ∀ (h : History) (w : World), w.GInv → w.All BaseC → (w.run h).GInv := by
+  have key : ∀ (h : History) (w : World), w.GInv → w.All BaseC → w.MCAll → (w.run h).GInv := by
     intro h
     induction h with
-    | nil => intro w a _; exact a
+    | nil => intro w a _ _; exact a
     | cons x xs ih =>
-      intro w a b
+      intro w a b c
       simp only [World.run, List.foldl_cons]
-      exact ih _ (a.next b x) (World.all_next baseC_invariant w x (admits_all x) b)
-  exact key h _ (World.GInv.init base) (World.all_init BaseC base)
+      exact ih _ (a.next b c x) (World.all_next baseC_invariant w x (admits_all x) b) (c.next x)
+  exact key h _ (World.GInv.init base) (World.all_init BaseC base) (World.MCAll.init base)
 
 end Taskpool
